@@ -541,6 +541,10 @@ def check_c04(world):
                 if known is None or known >= hi:
                     break
                 lo = max(lo, known)
+                # ... and only until the relay itself (blocked in its send, it asks for nothing) has been silent towards
+                # that publisher for the connection timeout - which is earlier than the stalled consumer's own time-out
+                last = max((t for t in deqs.get((ukey, child_key), []) if t < hi), default=known)
+                hi = min(hi, last + conn_to)
                 n_up = sum(1 for (t, m) in pubs_by.get(ukey, []) if lo < t < hi)
                 stats['c04_upstream_pubs_in_stall_max'] = max(stats['c04_upstream_pubs_in_stall_max'], n_up)
                 if n_up > 9 * (depth + 1):     # requests in flight on slow links add to what each relay holds; still fixed
